@@ -288,8 +288,51 @@ def failed_loads(res):
             errors.RAISE_CONTROLLER_VALUE_ERRORS = True
 
 
+def keyword_first(res, types):
+    """The very FIRST instance of a type in this process is built with a keyword for every controller (legal non-default
+    values); what is remembered of that must not become anybody's default: the next keyword-less instance reports the
+    specification's defaults.  Runs before anything else has constructed a module."""
+    from rv.modules import MODULE_CLASSES
+    sp = spec.load()
+    for T in types:
+        if T == "Output":
+            continue
+        t = sp[T]
+        cls = MODULE_CLASSES[t.mtype]
+        kw = {}
+        for sc in t.controllers:
+            if sc.kind in ("range", "compact", "no_offset") and sc.attached:
+                kw[sc.name] = sc.max if sc.default_value() != sc.max else sc.min
+            elif sc.kind == "bool":
+                kw[sc.name] = not sc.default_value()
+            elif sc.kind == "enum":
+                others = [v for _n, v in sc.members if v != sc.default_value()]
+                if others:
+                    kw[sc.name] = others[-1]
+        if T == "MetaModule":
+            kw = {k: v for k, v in kw.items() if not k.startswith("user_defined")}
+        try:
+            first = cls(**kw)
+        except Exception as e:
+            res.violation(f"C09:construct-raises:{T}", f"{T}(**every controller at a legal non-default value) raised {e!r}", {"type": T})
+            continue
+        res.count("keyword_first_constructions")
+        fresh = cls()
+        for sc in t.controllers:
+            if T == "MetaModule" and sc.name.startswith("user_defined"):
+                continue
+            res.case((T, sc.name, "default-after-keyword-first"))
+            got, want = _val(getattr(fresh, sc.name)), sc.default_value()
+            if got != want:
+                res.violation(f"C09:default:{T}.{sc.name}", f"{T}().{sc.name} == {got!r} after the first {T} of the process was built with {sc.name}={kw.get(sc.name)!r}; spec default {want!r}",
+                              {"type": T, "controller": sc.name, "path": "keyword-first"})
+            if sc.name in kw and _val(getattr(first, sc.name)) != kw[sc.name]:
+                res.violation(f"C09:readback:{T}.{sc.name}:constructor", f"{T}({sc.name}={kw[sc.name]!r}) reads back {getattr(first, sc.name)!r}", {"type": T, "controller": sc.name})
+
+
 def run_shard(spec_, res):
     rng = random.Random(spec_["seed"])
+    keyword_first(res, spec_["types"])
     failed_loads(res)
     # other instances are used (and abused) first: odd files, MetaModules mapping onto every controller kind, in-place
     # payload edits, failed constructions.  Defaults and validation of FRESH modules are probed afterwards.
